@@ -1,2 +1,600 @@
-def selftest():
+"""Independent readers for the vector formats (scratch).
+
+Every reader returns a dict:
+  page: (width, height) in output units
+  scale: factor from module units to page units declared by the document itself
+  segments: list of (colour, x1, y, x2, linewidth) in *module units*, y measured from the top
+  background: colour or None;  bg_rect: (x, y, w, h) in module units covered by the background
+"""
+import re
+import zlib
+import xml.etree.ElementTree as ET
+from fractions import Fraction as F
+
+
+class FormatError(Exception):
     pass
+
+
+_NUM = r'[-+]?(?:\d+\.?\d*|\.\d+)(?:[eE][-+]?\d+)?'
+
+
+def num(s):
+    try:
+        return F(s)
+    except (ValueError, ZeroDivisionError):
+        raise FormatError('bad number %r' % (s,))
+
+
+# ------------------------------------------------------------------ SVG
+_PATH_TOK = re.compile(r'([MmhvzZ])|(%s)' % _NUM)
+
+
+def parse_svg_path(d):
+    """Returns (segments [(x1, y, x2)], closed_polygons [[(x, y), ...]]) in path units.
+    Supports M m h v z (all segno emits); anything else raises."""
+    toks = []
+    pos = 0
+    d = d.strip()
+    while pos < len(d):
+        if d[pos] in ' ,\t\r\n':
+            pos += 1
+            continue
+        m = _PATH_TOK.match(d, pos)
+        if not m:
+            raise FormatError('unsupported path data at %d: %r' % (pos, d[pos:pos + 10]))
+        toks.append(m.group(0))
+        pos = m.end()
+    segs, polys = [], []
+    x = y = F(0)
+    sx = sy = F(0)
+    cur = None
+    i = 0
+    cmd = None
+
+    def take():
+        nonlocal i
+        if i >= len(toks) or toks[i] in 'MmhvzZ':
+            raise FormatError('path argument missing')
+        v = num(toks[i])
+        i += 1
+        return v
+    while i < len(toks):
+        if toks[i] in 'MmhvzZ':
+            cmd = toks[i]
+            i += 1
+            fresh = True
+        else:
+            if cmd is None:
+                raise FormatError('path does not start with a command')
+            if cmd in 'MmzZ':
+                raise FormatError('implicit lineto / stray number is not expected')
+            fresh = False
+        if cmd in 'Mm':
+            a, b = take(), take()
+            if cmd == 'M':
+                x, y = a, b
+            else:
+                x, y = x + a, y + b
+            sx, sy = x, y
+            cur = [(x, y)]
+        elif cmd == 'h':
+            a = take()
+            if cur is None:
+                raise FormatError('h before moveto')
+            segs.append((x, y, x + a, len(polys)))
+            x += a
+            cur.append((x, y))
+        elif cmd == 'v':
+            a = take()
+            if cur is None:
+                raise FormatError('v before moveto')
+            y += a
+            cur.append((x, y))
+            segs.append(None)
+        elif cmd in 'zZ':
+            if cur is None:
+                raise FormatError('z before moveto')
+            polys.append(cur)
+            x, y = sx, sy
+            cur = [(x, y)]
+    return segs, polys
+
+
+def _svg_color(el, attr):
+    v = el.get(attr)
+    if v is None:
+        return None
+    op = el.get(attr + '-opacity')
+    return (v, op) if op is not None else v
+
+
+def read_svg(data, encoding='utf-8'):
+    try:
+        root = ET.fromstring(data)
+    except ET.ParseError as ex:
+        raise FormatError('XML: %s' % ex)
+    tag = root.tag
+    ns = ''
+    if tag.startswith('{'):
+        ns, tag = tag[1:].split('}')
+    if tag != 'svg':
+        raise FormatError('root element is %r' % tag)
+    res = dict(ns=ns, attrib=dict(root.attrib), title=None, desc=None)
+    w, h, vb = root.get('width'), root.get('height'), root.get('viewBox')
+    unit = ''
+    if w is not None:
+        m = re.fullmatch(r'(%s)(.*)' % _NUM, w)
+        m2 = re.fullmatch(r'(%s)(.*)' % _NUM, h or '')
+        if not m or not m2:
+            raise FormatError('bad width/height')
+        res['size'] = (num(m.group(1)), num(m2.group(1)))
+        unit = m.group(2)
+        if m2.group(2) != unit:
+            raise FormatError('width/height units differ')
+    res['unit'] = unit
+    if vb is not None:
+        parts = vb.split()
+        if len(parts) != 4:
+            raise FormatError('bad viewBox')
+        res['viewbox'] = tuple(num(p) for p in parts)
+    if 'size' not in res and 'viewbox' not in res:
+        raise FormatError('neither size nor viewBox')
+    if 'viewbox' in res:
+        if res['viewbox'][:2] != (0, 0):
+            raise FormatError('viewBox origin')
+        page = res['viewbox'][2:]
+    else:
+        page = res['size']
+    res['page'] = page
+    q = (lambda t: '{%s}%s' % (ns, t)) if ns else (lambda t: t)
+    segments = []
+    backgrounds = []
+    order = []
+
+    def transform_of(el):
+        t = el.get('transform')
+        if t is None:
+            return F(1)
+        m = re.fullmatch(r'scale\((%s)\)' % _NUM, t)
+        if not m:
+            raise FormatError('unsupported transform %r' % t)
+        return num(m.group(1))
+
+    def handle_path(el, scale):
+        scale = scale * transform_of(el)
+        d = el.get('d')
+        if d is None:
+            raise FormatError('path without d')
+        segs, polys = parse_svg_path(d)
+        stroke = _svg_color(el, 'stroke')
+        fill = _svg_color(el, 'fill')
+        if polys:
+            if len(polys) != 1 or fill is None:
+                raise FormatError('closed path without fill / several sub paths')
+            pts = polys[0]
+            xs = [p[0] for p in pts]
+            ys = [p[1] for p in pts]
+            rect = (min(xs), min(ys), max(xs) - min(xs), max(ys) - min(ys))
+            # must be an axis parallel rectangle
+            if len(set(pts)) != 4 or any(p[0] not in (min(xs), max(xs)) or p[1] not in (min(ys), max(ys)) for p in pts):
+                raise FormatError('background is not a rectangle')
+            backgrounds.append((fill, tuple(v for v in rect), scale, len(order)))
+            order.append('bg')
+            return
+        if fill is not None:
+            raise FormatError('open path with fill')
+        for s in segs:
+            if s is None:
+                raise FormatError('vertical move in stroke path')
+            x1, y, x2, _ = s
+            segments.append((stroke, x1, y, x2, F(1), scale))
+        order.append('path')
+        res.setdefault('path_classes', []).append(el.get('class'))
+
+    for el in root:
+        t = el.tag.split('}')[-1]
+        if t == 'title':
+            res['title'] = el.text or ''
+        elif t == 'desc':
+            res['desc'] = el.text or ''
+        elif t == 'path':
+            handle_path(el, F(1))
+        elif t == 'g':
+            sc = transform_of(el)
+            for sub in el:
+                if sub.tag.split('}')[-1] != 'path':
+                    raise FormatError('unexpected element in group')
+                handle_path(sub, sc)
+        else:
+            raise FormatError('unexpected element %r' % t)
+    res['segments'] = segments
+    res['backgrounds'] = backgrounds
+    res['order'] = order
+    return res
+
+
+# ------------------------------------------------------------------ EPS
+def read_eps(text):
+    lines = text.split('\n')
+    if lines[0] != '%!PS-Adobe-3.0 EPSF-3.0':
+        raise FormatError('EPS header')
+    if any(len(ln) > 255 for ln in lines):
+        raise FormatError('EPS line longer than 255 chars')
+    if lines[-1] != '' or lines[-2] != '%%EOF':
+        raise FormatError('EPS trailer')
+    bbox = None
+    body = []
+    for ln in lines[1:-2]:
+        if ln.startswith('%%BoundingBox:'):
+            parts = ln.split(':', 1)[1].split()
+            if len(parts) != 4:
+                raise FormatError('BoundingBox')
+            bbox = tuple(num(p) for p in parts)
+        elif ln.startswith('%'):
+            continue
+        else:
+            body.append(ln)
+    if bbox is None or bbox[:2] != (0, 0):
+        raise FormatError('BoundingBox missing / origin')
+    toks = ' '.join(body).split()
+    # tiny PostScript interpreter for the operators segno uses
+    stack = []
+    defs = {}
+    scale = F(1)
+    color = (F(0), F(0), F(0))
+    bg = None
+    segs = []
+    cur = None
+    i = 0
+    stroked = False
+    path = []
+
+    def run(tok):
+        nonlocal scale, color, bg, cur, stroked, path
+        if re.fullmatch(_NUM, tok):
+            stack.append(num(tok))
+        elif tok == 'setrgbcolor':
+            b = stack.pop(); g = stack.pop(); r = stack.pop()
+            color = (r, g, b)
+        elif tok == 'clippath':
+            path = 'clip'
+        elif tok == 'fill':
+            if path != 'clip':
+                raise FormatError('fill of non clip path')
+            bg = color
+            path = []
+        elif tok == 'scale':
+            sy = stack.pop(); sx = stack.pop()
+            if sx != sy:
+                raise FormatError('anisotropic scale')
+            scale *= sx
+        elif tok == 'newpath':
+            path = []
+            cur = None
+        elif tok == 'moveto':
+            y = stack.pop(); x = stack.pop()
+            cur = (x, y)
+        elif tok == 'rmoveto':
+            dy = stack.pop(); dx = stack.pop()
+            if cur is None:
+                raise FormatError('rmoveto without current point')
+            cur = (cur[0] + dx, cur[1] + dy)
+        elif tok == 'rlineto':
+            dy = stack.pop(); dx = stack.pop()
+            if cur is None:
+                raise FormatError('rlineto without current point')
+            if dy != 0:
+                raise FormatError('non horizontal line')
+            path.append((cur[0], cur[1], cur[0] + dx))
+            cur = (cur[0] + dx, cur[1])
+        elif tok == 'stroke':
+            for (x1, y, x2) in path:
+                segs.append((color, x1, y, x2, F(1)))
+            path = []
+            stroked = True
+        elif tok in defs:
+            for t in defs[tok]:
+                run(t)
+        else:
+            raise FormatError('unknown PS operator %r' % tok)
+    while i < len(toks):
+        tok = toks[i]
+        if tok.startswith('/'):
+            # /name { ... } bind def
+            name = tok[1:]
+            if toks[i + 1] != '{':
+                raise FormatError('def syntax')
+            j = toks.index('}', i)
+            proc = toks[i + 2:j]
+            if toks[j + 1:j + 3] != ['bind', 'def']:
+                raise FormatError('def syntax')
+            defs[name] = proc
+            i = j + 3
+            continue
+        try:
+            run(tok)
+        except IndexError:
+            raise FormatError('PS stack underflow at %r' % tok)
+        i += 1
+    if stack:
+        raise FormatError('PS stack not empty')
+    if not stroked:
+        raise FormatError('no stroke')
+    return dict(page=bbox[2:], scale=scale, segments_up=segs, background=bg)
+
+
+# ------------------------------------------------------------------ PDF
+def read_pdf(data):
+    if not data.startswith(b'%PDF-1.'):
+        raise FormatError('PDF header')
+    if not data.rstrip(b'\r\n').endswith(b'%%EOF'):
+        raise FormatError('PDF EOF marker')
+    m = re.search(rb'startxref\r?\n(\d+)\r?\n%%EOF\s*\Z', data)
+    if not m:
+        raise FormatError('startxref')
+    xpos = int(m.group(1))
+    if data[xpos:xpos + 4] != b'xref':
+        raise FormatError('startxref does not point to xref')
+    m2 = re.match(rb'xref\r?\n(\d+) (\d+)\r?\n', data[xpos:])
+    if not m2:
+        raise FormatError('xref header')
+    first, count = int(m2.group(1)), int(m2.group(2))
+    p = xpos + m2.end()
+    entries = []
+    for k in range(count):
+        ent = data[p:p + 20]
+        mm = re.fullmatch(rb'(\d{10}) (\d{5}) ([nf])(?: \r| \n|\r\n)', ent)
+        if not mm:
+            raise FormatError('xref entry %d malformed: %r' % (k, ent))
+        entries.append((int(mm.group(1)), int(mm.group(2)), mm.group(3)))
+        p += 20
+    tr = re.match(rb'trailer\s*<<(.*?)>>', data[p:], re.S)
+    if not tr:
+        raise FormatError('trailer')
+    size = re.search(rb'/Size (\d+)', tr.group(1))
+    rootref = re.search(rb'/Root (\d+) (\d+) R', tr.group(1))
+    if not size or not rootref:
+        raise FormatError('trailer keys')
+    # objects actually defined in the file
+    defined = {}
+    for mo in re.finditer(rb'(?:(?<=[\r\n])|\A)(\d+) (\d+) obj\b', data):
+        defined[int(mo.group(1))] = mo.start()
+    xref_ok = {}
+    for idx, (off, gen, kind) in enumerate(entries):
+        objno = first + idx
+        if kind == b'n' and objno in defined:
+            xref_ok[objno] = (off == defined[objno])
+    for objno in defined:
+        if not (first <= objno < first + count) or entries[objno - first][2] != b'n':
+            xref_ok[objno] = False
+
+    def obj(no):
+        if no not in defined:
+            raise FormatError('object %d not defined' % no)
+        start = defined[no]
+        end = data.find(b'endobj', start)
+        if end < 0:
+            raise FormatError('object %d not terminated' % no)
+        return data[start:end]
+    root = obj(int(rootref.group(1)))
+    pages = re.search(rb'/Pages (\d+) \d+ R', root)
+    if b'/Type /Catalog' not in root or not pages:
+        raise FormatError('catalog')
+    pagesobj = obj(int(pages.group(1)))
+    kids = re.search(rb'/Kids \[(\d+) \d+ R\]', pagesobj)
+    if not kids or b'/Count 1' not in pagesobj:
+        raise FormatError('pages')
+    page = obj(int(kids.group(1)))
+    mb = re.search(rb'/MediaBox \[([^\]]*)\]', page)
+    cont = re.search(rb'/Contents (\d+) \d+ R', page)
+    if not mb or not cont:
+        raise FormatError('page')
+    box = tuple(num(t.decode()) for t in mb.group(1).split())
+    if len(box) != 4 or box[:2] != (0, 0):
+        raise FormatError('MediaBox')
+    cobj = obj(int(cont.group(1)))
+    ln = re.search(rb'/Length (\d+)', cobj)
+    st = re.search(rb'stream\r?\n', cobj)
+    if not ln or not st:
+        raise FormatError('content stream')
+    length = int(ln.group(1))
+    sstart = defined[int(cont.group(1))] + st.end()
+    raw = data[sstart:sstart + length]
+    after = data[sstart + length:sstart + length + 20]
+    length_ok = bool(re.match(rb'\r?\n?endstream', after))
+    if b'/FlateDecode' in cobj:
+        try:
+            dec = zlib.decompressobj()
+            stream = dec.decompress(raw)
+        except zlib.error as ex:
+            raise FormatError('stream: %s (declared /Length %d)' % (ex, length))
+        if dec.unused_data or not dec.eof:
+            # /Length must cover exactly the compressed data
+            length_ok = False
+    else:
+        stream = raw
+    toks = stream.decode('ascii').split()
+    stack = []
+    ctm = (F(1), F(0), F(0), F(1), F(0), F(0))  # a b c d e f
+    stroke = (F(0), F(0), F(0))
+    fillc = (F(0), F(0), F(0))
+    bg = None
+    bg_rect = None
+    rect = None
+    cur = None
+    path = []
+    segs = []
+    gstack = []
+
+    def apply(pt):
+        a, b, c, d, e, f = ctm
+        return (a * pt[0] + c * pt[1] + e, b * pt[0] + d * pt[1] + f)
+    for tok in toks:
+        if re.fullmatch(_NUM, tok):
+            stack.append(num(tok))
+            continue
+        try:
+            if tok == 'cm':
+                f_ = stack.pop(); e_ = stack.pop(); d_ = stack.pop(); c_ = stack.pop(); b_ = stack.pop(); a_ = stack.pop()
+                a, b, c, d, e, f = ctm
+                # new = M x CTM  (PDF: M is applied first)
+                ctm = (a_ * a + b_ * c, a_ * b + b_ * d, c_ * a + d_ * c, c_ * b + d_ * d,
+                       e_ * a + f_ * c + e, e_ * b + f_ * d + f)
+            elif tok == 'rg':
+                b = stack.pop(); g = stack.pop(); r = stack.pop(); fillc = (r, g, b)
+            elif tok == 'RG':
+                b = stack.pop(); g = stack.pop(); r = stack.pop(); stroke = (r, g, b)
+            elif tok == 're':
+                h = stack.pop(); w = stack.pop(); y = stack.pop(); x = stack.pop()
+                p0 = apply((x, y)); p1 = apply((x + w, y + h))
+                rect = (p0[0], p0[1], p1[0] - p0[0], p1[1] - p0[1])
+            elif tok == 'f':
+                if rect is None:
+                    raise FormatError('f without path')
+                bg = fillc; bg_rect = rect; rect = None
+            elif tok == 'q':
+                gstack.append((ctm, stroke, fillc))
+            elif tok == 'Q':
+                ctm, stroke, fillc = gstack.pop()
+            elif tok == 'm':
+                y = stack.pop(); x = stack.pop(); cur = (x, y)
+            elif tok == 'l':
+                y = stack.pop(); x = stack.pop()
+                if cur is None:
+                    raise FormatError('l without current point')
+                p0 = apply(cur); p1 = apply((x, y))
+                if p0[1] != p1[1]:
+                    raise FormatError('non horizontal line')
+                if ctm[1] != 0 or ctm[2] != 0 or ctm[0] != ctm[3]:
+                    raise FormatError('unexpected CTM')
+                path.append((p0[0], p0[1], p1[0], ctm[0]))
+                cur = (x, y)
+            elif tok == 'S':
+                for (x1, y, x2, lw) in path:
+                    segs.append((stroke, x1, y, x2, lw))
+                path = []
+            else:
+                raise FormatError('unknown PDF operator %r' % tok)
+        except IndexError:
+            raise FormatError('PDF operand stack underflow at %r' % tok)
+    if stack or path:
+        raise FormatError('dangling operands / unpainted path')
+    return dict(page=box[2:], segments_page=segs, background=bg, bg_rect=bg_rect,
+                xref_ok=xref_ok, length_ok=length_ok, defined=sorted(defined))
+
+
+# ------------------------------------------------------------------ TeX
+def read_tex(text):
+    lines = text.split('\n')
+    res = dict(url=None, color=None)
+    body = [ln for ln in lines if not ln.startswith('%')]
+    joined = '\n'.join(body)
+    m = re.fullmatch(r'(?:\\href\{(?P<url>[^}]*)\}\{)?\\begin\{pgfpicture\}\n'
+                     r'  \\pgfsetlinewidth\{(?P<lw>%s)(?P<unit>[a-z]*)\}\n'
+                     r'(?:  \\color\{(?P<color>[^}]*)\}\n)?'
+                     r'(?P<path>(?:  \\pgfpath(?:moveto|lineto)\{\\pgfqpoint\{[^}]*\}\{[^}]*\}\}\n)*)'
+                     r'  \\pgfusepath\{stroke\}\n'
+                     r'\\end\{pgfpicture\}(?P<close>\}?)\n' % _NUM, joined)
+    if not m:
+        raise FormatError('TeX structure')
+    if (m.group('url') is not None) != (m.group('close') == '}'):
+        raise FormatError('TeX href braces')
+    unit = m.group('unit')
+    lw = num(m.group('lw'))
+    segs = []
+    cur = None
+    for mm in re.finditer(r'\\pgfpath(moveto|lineto)\{\\pgfqpoint\{(%s)([a-z]*)\}\{(%s)([a-z]*)\}\}' % (_NUM, _NUM),
+                          m.group('path')):
+        if mm.group(3) != unit or mm.group(5) != unit:
+            raise FormatError('TeX units differ')
+        pt = (num(mm.group(2)), num(mm.group(4)))
+        if mm.group(1) == 'moveto':
+            cur = pt
+        else:
+            if cur is None or cur[1] != pt[1]:
+                raise FormatError('TeX lineto')
+            segs.append((cur[0], cur[1], pt[0]))
+            cur = pt
+    return dict(linewidth=lw, unit=unit, url=m.group('url'), color=m.group('color'), segments_down=segs)
+
+
+# ------------------------------------------------------------------ rasterising segments
+def snap(v, tol=F(1, 10 ** 6)):
+    s = F(round(v * 2), 2)
+    return s if abs(v - s) < tol else v
+
+
+def grid_from_segments(segs, n_total):
+    """segs: (x1, y_centre, x2, linewidth) in module units measured from the top left corner of
+    the page.  Returns the coverage count per unit square; raises FormatError when a segment is not
+    a horizontal, one module wide line on the module grid inside the page."""
+    g = [[0] * n_total for _ in range(n_total)]
+    for (x1, y, x2, lw) in segs:
+        x1, y, x2, lw = snap(x1), snap(y), snap(x2), snap(lw)
+        if lw != 1:
+            raise FormatError('line width %s is not one module' % float(lw))
+        if x1.denominator != 1 or x2.denominator != 1 or (y - F(1, 2)).denominator != 1:
+            raise FormatError('segment off the module grid: x1=%s y=%s x2=%s' % (float(x1), float(y), float(x2)))
+        if x2 <= x1:
+            raise FormatError('empty or reversed segment')
+        r = int(y - F(1, 2))
+        for c in range(int(x1), int(x2)):
+            if not (0 <= r < n_total and 0 <= c < n_total):
+                raise FormatError('segment paints outside the page at row %d column %d' % (r, c))
+            g[r][c] += 1
+    return g
+
+
+def selftest():
+    svg = (b'<?xml version="1.0" encoding="utf-8"?>\n<svg xmlns="http://www.w3.org/2000/svg" width="6" height="6" class="s">'
+           b'<title>a&lt;b</title><g transform="scale(2)"><path fill="#fff" d="M0 0h3v3h-3z"/>'
+           b'<path class="q" stroke="#000" d="M1 1.5h1m-2 1h1"/></g></svg>\n')
+    d = read_svg(svg)
+    assert d['page'] == (6, 6) and d['title'] == 'a<b'
+    assert d['backgrounds'][0][1] == (0, 0, 3, 3) and d['backgrounds'][0][2] == 2
+    segs = [(x1, y, x2, lw) for (c, x1, y, x2, lw, sc) in d['segments']]
+    assert grid_from_segments(segs, 3) == [[0, 0, 0], [0, 1, 0], [1, 0, 0]], grid_from_segments(segs, 3)
+    for bad in (b'<svg width="1" height="1"><path stroke="#000" d="M0 0.5L1 1"/></svg>', b'<svg><path d="M0 0h1"/>'):
+        try:
+            read_svg(bad)
+            raise AssertionError('bad SVG accepted')
+        except FormatError:
+            pass
+    eps = ('%!PS-Adobe-3.0 EPSF-3.0\n%%BoundingBox: 0 0 6 6\n/m { rmoveto } bind def\n/l { rlineto } bind def\n'
+           '1.000000 1.000000 0.000000 setrgbcolor clippath fill\n0 0 0 setrgbcolor\n2 2 scale\nnewpath\n'
+           '1 1.5 moveto 1 0 l -2 -1 m 1 0 l\nstroke\n%%EOF\n')
+    d = read_eps(eps)
+    assert d['page'] == (6, 6) and d['scale'] == 2 and d['background'] == (1, 1, 0)
+    segs = [(x1, 3 - y, x2, lw) for (c, x1, y, x2, lw) in d['segments_up']]
+    assert grid_from_segments(segs, 3) == [[0, 0, 0], [0, 1, 0], [1, 0, 0]]
+    tex = ('% Creator: x\n\\begin{pgfpicture}\n  \\pgfsetlinewidth{2pt}\n  \\color{red}\n'
+           '  \\pgfpathmoveto{\\pgfqpoint{2pt}{-3.0pt}}\n  \\pgfpathlineto{\\pgfqpoint{4pt}{-3.0pt}}\n'
+           '  \\pgfusepath{stroke}\n\\end{pgfpicture}\n')
+    d = read_tex(tex)
+    assert d['linewidth'] == 2 and d['color'] == 'red' and d['segments_down'] == [(2, -3, 4)]
+    stream = b'1 0 0 rg 0 0 6 6 re f q 2 0 0 2 0 0 cm 1 0 0 1 0 2.5 cm 1 -1 m 2 -1 l S'
+    import zlib as _z
+    comp = _z.compress(stream)
+    objs = [b'<</Type /Catalog /Pages 2 0 R>>', b'<</Type /Pages /Kids [3 0 R] /Count 1>>',
+            b'<</Type /Page /Parent 2 0 R /MediaBox [0 0 6 6] /Contents 4 0 R>>']
+    out = b'%PDF-1.4\r%\xe2\xe3\xcf\xd3\r\n'
+    pos = []
+    for i, o in enumerate(objs):
+        pos.append(len(out))
+        out += b'%d 0 obj ' % (i + 1) + o + b'\r\nendobj\r\n'
+    pos.append(len(out))
+    out += b'4 0 obj <</Length %d /Filter /FlateDecode>>\r\nstream\r\n' % len(comp) + comp + b'\r\nendstream\r\nendobj\r\n'
+    xref = len(out)
+    out += b'xref\r\n0 5\r\n0000000000 65535 f\r\n' + b''.join(b'%010d 00000 n\r\n' % p for p in pos)
+    out += b'trailer <</Size 5/Root 1 0 R>>\r\nstartxref\r\n%d\r\n%%%%EOF\r\n' % xref
+    d = read_pdf(out)
+    assert d['page'] == (6, 6) and d['length_ok'] and all(d['xref_ok'].values()) and d['background'] == (1, 0, 0)
+    segs = [(x1 / 2, 3 - y / 2, x2 / 2, lw / 2) for (c, x1, y, x2, lw) in d['segments_page']]
+    assert grid_from_segments(segs, 3) == [[0, 0, 0], [0, 1, 0], [0, 0, 0]], grid_from_segments(segs, 3)
+    bad = out.replace(b'/Length %d' % len(comp), b'/Length %d' % (len(comp) + 1))
+    try:
+        r = read_pdf(bad)
+        assert not r['length_ok'] or not all(r['xref_ok'].values())
+    except FormatError:
+        pass
